@@ -77,3 +77,225 @@ package corebgp
 //@   ensures [flags_class] !optNonTransFlags(flags) ==> isTAW(err, 9, 3, 4) && attrTLV(tawNotif(err).Data, 9, b)
 //@   ensures [len_class]   optNonTransFlags(flags) && len(b) != 4 ==> isTAW(err, 9, 3, 5) && attrTLV(tawNotif(err).Data, 9, b)
 //@   modifies *o
+
+//@ func decodeUint32Set returns (r, err)
+//@   ghost b0 = b
+//@   ensures [nil_iff] (err == nil) == (len(b) > 0 && len(b) % 4 == 0)
+//@   ensures [count]   err == nil ==> len(r) == len(b) / 4
+//@   ensures [values]  err == nil ==> (forall k :: 0 <= k && k < len(r) ==> r[k] == be32(b, 4*k))
+//@   ensures [fresh]   err == nil ==> fresh(r.arr)
+//@   ensures [nil_on_error] err != nil ==> r == nil
+//@   loop#0 invariant [suffix] suffixOf(b, b0) && offsetIn(b, b0) % 4 == 0 && len(b0) % 4 == 0
+//@   loop#0 invariant [count]  len(ret) == offsetIn(b, b0) / 4 && fresh(ret.arr)
+//@   loop#0 invariant [values] forall k :: 0 <= k && k < len(ret) ==> ret[k] == be32(b0, 4*k)
+//@   loop#0 decreases len(b)
+
+//@ func CommunitiesPathAttr.Decode returns (err)
+//@   ensures [accept_iff]  (err == nil) == (optTransFlags(flags) && len(b) >= 4 && len(b) % 4 == 0)
+//@   ensures [count]       err == nil ==> len(*c) == len(b) / 4
+//@   ensures [value_exact] err == nil ==> (forall k :: 0 <= k && k < len(b) / 4 ==> (*c)[k] == be32(b, 4*k))
+//@   ensures [flags_class] !optTransFlags(flags) ==> isTAW(err, 8, 3, 4) && attrTLV(tawNotif(err).Data, 8, b)
+//@   ensures [len_class]   optTransFlags(flags) && !(len(b) >= 4 && len(b) % 4 == 0) ==> isTAW(err, 8, 3, 5) && attrTLV(tawNotif(err).Data, 8, b)
+//@   modifies *c
+
+//@ func ClusterListPathAttr.Decode returns (err)
+//@   ghost b0 = b
+//@   ensures [accept_iff]  (err == nil) == (optNonTransFlags(flags) && len(b) >= 4 && len(b) % 4 == 0)
+//@   ensures [count]       err == nil ==> len(*c) == len(b) / 4
+//@   ensures [value_exact] err == nil ==> (forall k :: 0 <= k && k < len(b) / 4 ==> (*c)[k] == addr4(b[4*k], b[4*k+1], b[4*k+2], b[4*k+3]))
+//@   ensures [flags_class] !optNonTransFlags(flags) ==> isTAW(err, 10, 3, 4) && attrTLV(tawNotif(err).Data, 10, b)
+//@   ensures [len_class]   optNonTransFlags(flags) && !(len(b) >= 4 && len(b) % 4 == 0) ==> isTAW(err, 10, 3, 5) && attrTLV(tawNotif(err).Data, 10, b)
+//@   modifies *c
+//@   loop#0 invariant [suffix] suffixOf(b, b0) && offsetIn(b, b0) % 4 == 0 && len(b0) % 4 == 0
+//@   loop#0 invariant [count]  len(addrs) == offsetIn(b, b0) / 4 && fresh(addrs.arr)
+//@   loop#0 invariant [values] forall k :: 0 <= k && k < len(addrs) ==> addrs[k] == addr4(b0[4*k], b0[4*k+1], b0[4*k+2], b0[4*k+3])
+//@   loop#0 decreases len(b)
+
+//@ func decodeLargeCommunitySet returns (r, err)
+//@   ghost b0 = b
+//@   ensures [nil_iff] (err == nil) == (len(b) % 12 == 0)
+//@   ensures [count]   err == nil ==> len(r) == len(b) / 12
+//@   ensures [values]  err == nil ==> (forall k :: 0 <= k && k < len(r) ==> r[k].GlobalAdmin == be32(b, 12*k) && r[k].LocalData1 == be32(b, 12*k+4) && r[k].LocalData2 == be32(b, 12*k+8))
+//@   ensures [fresh]   err == nil ==> fresh(r.arr)
+//@   loop#0 invariant [suffix] suffixOf(b, b0) && offsetIn(b, b0) % 12 == 0 && len(b0) % 12 == 0
+//@   loop#0 invariant [count]  len(ret) == offsetIn(b, b0) / 12 && fresh(ret.arr)
+//@   loop#0 invariant [values] forall k :: 0 <= k && k < len(ret) ==> ret[k].GlobalAdmin == be32(b0, 12*k) && ret[k].LocalData1 == be32(b0, 12*k+4) && ret[k].LocalData2 == be32(b0, 12*k+8)
+//@   loop#0 decreases len(b)
+
+//@ func LargeCommunitiesPathAttr.Decode returns (err)
+//@   ensures [accept_iff]  (err == nil) == (optTransFlags(flags) && len(b) >= 12 && len(b) % 12 == 0)
+//@   ensures [count]       err == nil ==> len(*l) == len(b) / 12
+//@   ensures [value_exact] err == nil ==> (forall k :: 0 <= k && k < len(b) / 12 ==> (*l)[k].GlobalAdmin == be32(b, 12*k) && (*l)[k].LocalData1 == be32(b, 12*k+4) && (*l)[k].LocalData2 == be32(b, 12*k+8))
+//@   ensures [flags_class] !optTransFlags(flags) ==> isTAW(err, 32, 3, 4) && attrTLV(tawNotif(err).Data, 32, b)
+//@   ensures [len_class]   optTransFlags(flags) && !(len(b) >= 12 && len(b) % 12 == 0) ==> isTAW(err, 32, 3, 5) && attrTLV(tawNotif(err).Data, 32, b)
+//@   modifies *l
+
+// ---- prefixes, NLRI, MP attributes (C19) ----
+
+//@ func decodePrefix returns (p, rest, err)
+//@   ensures [accept_iff] (err == nil) == (len(b) >= 1 && pfxOK(b, 0, ipv6))
+//@   ensures [rest]       err == nil ==> sameSlice(rest, b[pfxNext(b, 0):])
+//@   ensures [value]      err == nil ==> p == pfxAt(b, 0, ipv6)
+//@   ensures [nil_on_error] err != nil ==> rest == nil && p == 0
+
+//@ func decodePrefixes returns (r, err)
+//@   ghost b0 = b
+//@   ghostvar offs intarray = emptyArr()
+//@   ghostvar fn int = 0
+//@   ghostvar fpos int = 0
+//@   at call decodePrefix#0 set offs = store(offs, len(prefixes), offsetIn(b, b0))
+//@   at call decodePrefix#0 set fn = len(prefixes)
+//@   at call decodePrefix#0 set fpos = offsetIn(b, b0)
+//@   ensures [accept_chain] err == nil ==> pfxChain(b, offs, len(r), len(b))
+//@   ensures [fault_at_parse_position] err != nil ==> pfxChain(b, offs, fn, fpos) && (forall k :: 0 <= k && k < fn ==> pfxOK(b, offs[k], ipv6)) && 0 <= fpos && fpos < len(b) && !pfxOK(b, fpos, ipv6)
+//@   ensures [entries_ok]   err == nil ==> (forall k :: 0 <= k && k < len(r) ==> pfxOK(b, offs[k], ipv6))
+//@   ensures [values]       err == nil ==> (forall k :: 0 <= k && k < len(r) ==> r[k] == pfxAt(b, offs[k], ipv6))
+//@   ensures [empty]        len(b) == 0 ==> err == nil && r == nil
+//@   ensures [fault_present] err != nil ==> r == nil && (exists o :: 0 <= o && o < len(b) && !pfxOK(b, o, ipv6))
+//@   loop#0 invariant [suffix]  suffixOf(b, b0) && fresh(prefixes.arr)
+//@   loop#0 invariant [chain]   pfxChain(b0, offs, len(prefixes), offsetIn(b, b0))
+//@   loop#0 invariant [entries] forall k :: 0 <= k && k < len(prefixes) ==> pfxOK(b0, offs[k], ipv6) && prefixes[k] == pfxAt(b0, offs[k], ipv6)
+//@   loop#0 decreases len(b)
+
+// add-path entries: <4-octet path id, length octet, address octets>
+//@ func decodeAddPathPrefixes returns (r, err)
+//@   ghost b0 = b
+//@   ghostvar offs intarray = emptyArr()
+//@   ghostvar fn int = 0
+//@   ghostvar fpos int = 0
+//@   at call Uint32#0 set offs = store(offs, len(prefixes), offsetIn(b, b0))
+//@   loop#0 invariant [fstate] fn == len(prefixes) && fpos == offsetIn(b, b0)
+//@   at call append#0 after set fn = len(result)
+//@   at call append#0 after set fpos = offsetIn(b, b0)
+//@   ensures [accept_chain] err == nil ==> apChain(b, offs, len(r), len(b))
+//@   ensures [fault_at_parse_position] err != nil ==> apChain(b, offs, fn, fpos) && (forall k :: 0 <= k && k < fn ==> apOK(b, offs[k], ipv6)) && 0 <= fpos && fpos < len(b) && !apOK(b, fpos, ipv6)
+//@   ensures [entries_ok]   err == nil ==> (forall k :: 0 <= k && k < len(r) ==> apOK(b, offs[k], ipv6))
+//@   ensures [values]       err == nil ==> (forall k :: 0 <= k && k < len(r) ==> r[k].ID == be32(b, offs[k]) && r[k].Prefix == pfxAt(b, offs[k] + 4, ipv6))
+//@   ensures [empty]        len(b) == 0 ==> err == nil && r == nil
+//@   ensures [fault_present] err != nil ==> r == nil && (exists o :: 0 <= o && o < len(b) && !apOK(b, o, ipv6))
+//@   loop#0 invariant [suffix]  suffixOf(b, b0) && fresh(prefixes.arr)
+//@   loop#0 invariant [chain]   apChain(b0, offs, len(prefixes), offsetIn(b, b0))
+//@   loop#0 invariant [entries] forall k :: 0 <= k && k < len(prefixes) ==> apOK(b0, offs[k], ipv6) && prefixes[k].ID == be32(b0, offs[k]) && prefixes[k].Prefix == pfxAt(b0, offs[k] + 4, ipv6)
+//@   loop#0 decreases len(b)
+
+// The four NLRI / withdrawn-routes wrappers: the user closure is called exactly
+// once with the decoded list when the field parses, not at all otherwise.
+//@ func NewNLRIDecodeFn$1 returns (err)
+//@   requires fn != nil
+//@   ghostvar called int = 0
+//@   ghostvar w intarray = emptyArr()
+//@   ghostvar cbTag int = 0
+//@   ghostvar cbVal int = 0
+//@   at call decodePrefixes#0 after set w = callee_offs
+//@   at call fn#0 assert [delivers_decoded_list] called == 0 && pfxChain(b, w, len(arg1), len(b)) && (forall k :: 0 <= k && k < len(arg1) ==> pfxOK(b, w[k], false) && arg1[k] == pfxAt(b, w[k], false))
+//@   at call fn#0 set called = called + 1
+//@   at call fn#0 after set cbTag = result.tag
+//@   at call fn#0 after set cbVal = result.val
+//@   ensures [at_most_once]       called == 0 || called == 1
+//@   ensures [fault_notification] called == 0 ==> isNotif(err, 3, 10) && len(asType(err, *Notification).Data) == 0
+//@   ensures [callback_result]    called == 1 ==> err.tag == cbTag && err.val == cbVal
+
+//@ func NewNLRIAddPathDecodeFn$1 returns (err)
+//@   requires fn != nil
+//@   ghostvar called int = 0
+//@   ghostvar w intarray = emptyArr()
+//@   ghostvar cbTag int = 0
+//@   ghostvar cbVal int = 0
+//@   at call decodeAddPathPrefixes#0 after set w = callee_offs
+//@   at call fn#0 assert [delivers_decoded_list] called == 0 && apChain(b, w, len(arg1), len(b)) && (forall k :: 0 <= k && k < len(arg1) ==> apOK(b, w[k], false) && arg1[k].ID == be32(b, w[k]) && arg1[k].Prefix == pfxAt(b, w[k] + 4, false))
+//@   at call fn#0 set called = called + 1
+//@   at call fn#0 after set cbTag = result.tag
+//@   at call fn#0 after set cbVal = result.val
+//@   ensures [at_most_once]       called == 0 || called == 1
+//@   ensures [fault_notification] called == 0 ==> isNotif(err, 3, 10) && len(asType(err, *Notification).Data) == 0
+//@   ensures [callback_result]    called == 1 ==> err.tag == cbTag && err.val == cbVal
+
+//@ func NewWithdrawnRoutesDecodeFn$1 returns (err)
+//@   requires fn != nil
+//@   ghostvar called int = 0
+//@   ghostvar w intarray = emptyArr()
+//@   ghostvar cbTag int = 0
+//@   ghostvar cbVal int = 0
+//@   at call decodePrefixes#0 after set w = callee_offs
+//@   at call fn#0 assert [delivers_decoded_list] called == 0 && pfxChain(b, w, len(arg1), len(b)) && (forall k :: 0 <= k && k < len(arg1) ==> pfxOK(b, w[k], false) && arg1[k] == pfxAt(b, w[k], false))
+//@   at call fn#0 set called = called + 1
+//@   at call fn#0 after set cbTag = result.tag
+//@   at call fn#0 after set cbVal = result.val
+//@   ensures [at_most_once]       called == 0 || called == 1
+//@   ensures [fault_notification] called == 0 ==> isNotif(err, 3, 0) && len(asType(err, *Notification).Data) == 0
+//@   ensures [callback_result]    called == 1 ==> err.tag == cbTag && err.val == cbVal
+
+//@ func NewWithdrawnAddPathRoutesDecodeFn$1 returns (err)
+//@   requires fn != nil
+//@   ghostvar called int = 0
+//@   ghostvar w intarray = emptyArr()
+//@   ghostvar cbTag int = 0
+//@   ghostvar cbVal int = 0
+//@   at call decodeAddPathPrefixes#0 after set w = callee_offs
+//@   at call fn#0 assert [delivers_decoded_list] called == 0 && apChain(b, w, len(arg1), len(b)) && (forall k :: 0 <= k && k < len(arg1) ==> apOK(b, w[k], false) && arg1[k].ID == be32(b, w[k]) && arg1[k].Prefix == pfxAt(b, w[k] + 4, false))
+//@   at call fn#0 set called = called + 1
+//@   at call fn#0 after set cbTag = result.tag
+//@   at call fn#0 after set cbVal = result.val
+//@   ensures [at_most_once]       called == 0 || called == 1
+//@   ensures [fault_notification] called == 0 ==> isNotif(err, 3, 0) && len(asType(err, *Notification).Data) == 0
+//@   ensures [callback_result]    called == 1 ==> err.tag == cbTag && err.val == cbVal
+
+//@ func DecodeMPIPv6Prefixes returns (r, err)
+//@   ghostvar w intarray = emptyArr()
+//@   at call decodePrefixes#0 after set w = callee_offs
+//@   ensures [chain]   err == nil ==> pfxChain(b, w, len(r), len(b))
+//@   ensures [values]  err == nil ==> (forall k :: 0 <= k && k < len(r) ==> pfxOK(b, w[k], true) && r[k] == pfxAt(b, w[k], true))
+//@   ensures [fault_notification] err != nil ==> r == nil && isNotif(err, 3, 0)
+
+//@ func DecodeMPIPv6AddPathPrefixes returns (r, err)
+//@   ghostvar w intarray = emptyArr()
+//@   at call decodeAddPathPrefixes#0 after set w = callee_offs
+//@   ensures [chain]   err == nil ==> apChain(b, w, len(r), len(b))
+//@   ensures [values]  err == nil ==> (forall k :: 0 <= k && k < len(r) ==> apOK(b, w[k], true) && r[k].ID == be32(b, w[k]) && r[k].Prefix == pfxAt(b, w[k] + 4, true))
+//@   ensures [fault_notification] err != nil ==> r == nil && isNotif(err, 3, 0)
+
+//@ func DecodeMPReachIPv6NextHops returns (r, err)
+//@   ghost nh0 = nh
+//@   ensures [accept_iff] (err == nil) == (len(nh) == 16 || len(nh) == 32)
+//@   ensures [count]      err == nil ==> len(r) == len(nh) / 16
+//@   ensures [values]     err == nil ==> (forall k :: 0 <= k && k < len(r) ==> r[k] == addr16(nh[16*k], nh[16*k+1], nh[16*k+2], nh[16*k+3], nh[16*k+4], nh[16*k+5], nh[16*k+6], nh[16*k+7], nh[16*k+8], nh[16*k+9], nh[16*k+10], nh[16*k+11], nh[16*k+12], nh[16*k+13], nh[16*k+14], nh[16*k+15]))
+//@   ensures [fault_notification] err != nil ==> r == nil && isNotif(err, 3, 0)
+//@   loop#0 invariant [suffix] suffixOf(nh, nh0) && offsetIn(nh, nh0) % 16 == 0 && len(nh0) % 16 == 0
+//@   loop#0 invariant [count]  len(nhs) == offsetIn(nh, nh0) / 16 && fresh(nhs.arr)
+//@   loop#0 invariant [values] forall k :: 0 <= k && k < len(nhs) ==> nhs[k] == addr16(nh0[16*k], nh0[16*k+1], nh0[16*k+2], nh0[16*k+3], nh0[16*k+4], nh0[16*k+5], nh0[16*k+6], nh0[16*k+7], nh0[16*k+8], nh0[16*k+9], nh0[16*k+10], nh0[16*k+11], nh0[16*k+12], nh0[16*k+13], nh0[16*k+14], nh0[16*k+15])
+//@   loop#0 decreases len(nh)
+
+//@ func mpLenErr returns (n)
+//@   ensures [notif] n != nil && fresh(n) && n.Code == 3 && n.Subcode == 5 && len(n.Data) == 0
+
+// MP_REACH_NLRI: AFI(2) SAFI(1) NHLEN(1) NEXTHOP(NHLEN) RESERVED(1) NLRI(...)
+//@ func NewMPReachNLRIDecodeFn$1 returns (err)
+//@   requires fn != nil
+//@   ghost b0 = b
+//@   ghostvar called int = 0
+//@   ghostvar cbTag int = 0
+//@   ghostvar cbVal int = 0
+//@   at call fn#0 assert [split_exact] called == 0 && arg1 == be16(b0, 0) && arg2 == b0[2] && sameSlice(arg3, b0[4 : 4 + b0[3]]) && sameSlice(arg4, b0[5 + b0[3] :])
+//@   at call fn#0 set called = called + 1
+//@   at call fn#0 after set cbTag = result.tag
+//@   at call fn#0 after set cbVal = result.val
+//@   ensures [called_iff_long_enough] (called == 1) == (len(b) >= 5 && len(b) - 4 >= b[3] + 1) && (called == 0 || called == 1)
+//@   ensures [too_short_class] called == 0 ==> hasType(err, *Notification) && firstOf(err, *Notification) != nil && firstOf(err, *Notification).Code == 3 && firstOf(err, *Notification).Subcode == 5
+//@   ensures [flags_error_joined] !optNonTransFlags(flags) ==> hasType(err, *TreatAsWithdrawUpdateErr) && firstOf(err, *TreatAsWithdrawUpdateErr).Code == 14
+//@   ensures [nil_iff] (err == nil) == (optNonTransFlags(flags) && called == 1 && cbTag == 0)
+//@   ensures [callback_error_kept] called == 1 && cbTag != 0 ==> errContainsTV(err, cbTag, cbVal)
+
+//@ func NewMPUnreachNLRIDecodeFn$1 returns (err)
+//@   requires fn != nil
+//@   ghostvar called int = 0
+//@   ghostvar cbTag int = 0
+//@   ghostvar cbVal int = 0
+//@   at call fn#0 assert [split_exact] called == 0 && arg1 == be16(b, 0) && arg2 == b[2] && sameSlice(arg3, b[3:])
+//@   at call fn#0 set called = called + 1
+//@   at call fn#0 after set cbTag = result.tag
+//@   at call fn#0 after set cbVal = result.val
+//@   ensures [called_iff_long_enough] (called == 1) == (len(b) >= 3) && (called == 0 || called == 1)
+//@   ensures [too_short_class] called == 0 ==> hasType(err, *Notification) && firstOf(err, *Notification) != nil && firstOf(err, *Notification).Code == 3 && firstOf(err, *Notification).Subcode == 5
+//@   ensures [flags_error_joined] !optNonTransFlags(flags) ==> hasType(err, *TreatAsWithdrawUpdateErr) && firstOf(err, *TreatAsWithdrawUpdateErr).Code == 15
+//@   ensures [nil_iff] (err == nil) == (optNonTransFlags(flags) && called == 1 && cbTag == 0)
+//@   ensures [callback_error_kept] called == 1 && cbTag != 0 ==> errContainsTV(err, cbTag, cbVal)
